@@ -607,3 +607,44 @@ func setPath(rv reflect.Value, path string, v interface{}) {
 		rv.SetBytes(toBytes(v))
 	}
 }
+
+// ---- determinism (C06): natively the effects of a run are summarised by the resulting contents of every
+// store and bank table (the ordered write log is not observable without instrumenting the stores).
+func Snapshot() interface{} { return snap() }
+func Restore(s interface{}) { restore(s.(snapshot)) }
+func EffectsSince(s interface{}) interface{} {
+	cur := snap()
+	var sb strings.Builder
+	var names []string
+	for n := range cur.stores {
+		names = append(names, n)
+	}
+	sort.Strings(names)
+	for _, n := range names {
+		var keys []string
+		for k := range cur.stores[n] {
+			keys = append(keys, k)
+		}
+		sort.Strings(keys)
+		for _, k := range keys {
+			fmt.Fprintf(&sb, "%s|%x=%x\n", n, k, cur.stores[n][k])
+		}
+	}
+	names = nil
+	for n := range cur.tables {
+		names = append(names, n)
+	}
+	sort.Strings(names)
+	for _, n := range names {
+		var keys []string
+		for k := range cur.tables[n] {
+			keys = append(keys, k)
+		}
+		sort.Strings(keys)
+		for _, k := range keys {
+			fmt.Fprintf(&sb, "%s|%x=%s\n", n, k, cur.tables[n][k].String())
+		}
+	}
+	return sb.String()
+}
+func SameEffects(a, b interface{}) bool { return a.(string) == b.(string) }
